@@ -1574,7 +1574,14 @@ class Interp:
         if isinstance(key, Arr) and key.kind == "bool":
             m = key
             if isinstance(val, Arr):
-                raise Unsupported("masked store of an array value")
+                prov = getattr(val, "_filtered_from", None)
+                if prov is not None and prov[0] is key:
+                    # x[mask] = y[mask] with the SAME mask: position k receives y[k] where mask[k]
+                    # (numpy assigns the selected values in order; src(rank(k)) == k)
+                    fy = prov[1]
+                    base.at = lambda k, old_at=old_at, m=m, fy=fy: z3.If(m.at(k), fy(k), old_at(k))
+                    return
+                raise Unsupported("masked store of an array value (other than y[mask] with the same mask)")
             v = to_term(val)
             base.at = lambda k, old_at=old_at, m=m, v=v: z3.If(m.at(k), v, old_at(k))
             return
